@@ -473,7 +473,7 @@ class TorControlProtocol(LineOnlyReceiver):
         """
 
         d = self.queue_command('GETCONF %s' % ' '.join(args))
-        d.addCallback(parse_keywords, raw_values=True).addErrback(log.err)
+        d.addCallback(parse_keywords, raw_values=True)
         return d
 
     def get_conf_single(self, key):
@@ -495,7 +495,7 @@ class TorControlProtocol(LineOnlyReceiver):
         """
 
         d = self.queue_command('GETCONF {}'.format(key))
-        d.addCallback(parse_keywords, raw_values=True).addErrback(log.err)
+        d.addCallback(parse_keywords, raw_values=True)
         # d.addCallback(lambda kw: kw[key])  # extract key we asked for initially
         # ...but, the key can have a different string-name because Tor
         # will return *it's* representation (e.g. can ask for
